@@ -325,7 +325,8 @@ theorem processRepeatedResources_binders (rp : Repetition) (rs : List Resource) 
   unfold processRepeatedResources at h
   split at h
   · rename_i childName childRes
-    obtain ⟨_, _, h⟩ := Except.bind_ok h
+    split at h
+    · simp [throw, throwThe, MonadExceptOf.throw] at h
     refine foldlM_except_inv (fun (acc : List Resource) => ∀ r ∈ acc, binders r.value = []) _ ?_ childRes [] rs'
       (by intro r hr; cases hr) h
     intro acc nt acc' hacc hstep
